@@ -144,12 +144,20 @@ func TestC01(t *testing.T) {
 	rapid.Check(t, func(rt *rapid.T) {
 		var sc *Scenario
 		var info tieInfo
-		kind := rapid.IntRange(0, 3).Draw(rt, "family")
-		if kind == 0 {
+		kind := rapid.IntRange(0, 4).Draw(rt, "family")
+		switch kind {
+		case 0:
 			cfg := DefaultCfg()
 			cfg.CrossSnapshot = true
 			sc = GenModernScenario(rt, cfg)
-		} else {
+		case 4: // legacy PEG bank: equal requests over the bank (dust tie-break by txid)
+			var bi bankInfo
+			sc, bi = GenBankScenario(rt, st)
+			if bi.EqualPairs > 0 && bi.OverBank > 0 {
+				info.TiedHolders = 2
+				info.OverCap = true
+			}
+		default:
 			sc, info = genTieScenario(rt, st)
 		}
 		nt := ""
